@@ -150,6 +150,59 @@ theorem c02Visit_flow_bridge (env : Env) (fuel : Nat) (root : NodeId) (sid : Sto
     exact c02Visit_bridge env.kind p.1.1 p.1.2 sid cfg _ (hnc _ _ cfg hcfg)
   · rw [hcfg] at ha; cases ha
 
+/-- **the cancellation-proof clauses of C02, as the driver judges them on EVERY run** (`Spec.c02Bounds`): at most
+    `N` attempts, every attempt but the last failed, the fallback at most once and only after `N` failed
+    attempts, with the prep value and the last error — no hypothesis about what cancels the context when, about
+    the configuration (no exec callback, budget 0, …) or about the script -/
+theorem c02Bounds_bridge (kind : CtxKind) (n v sid : Nat) (cfg : LeafCfg) (scr : LeafScript) :
+    c02Bounds cfg scr (runLeaf kind n v sid cfg scr .live).1 = true :=
+  c02Bounds_of_leafRun (runLeaf_live_spec kind n v sid cfg scr)
+
+/-- … inside flows: every group of the trace of a run of any node (any flow shape, nesting, routing, any
+    pattern of cancellation, any context at the start) that belongs to a plain / function-style node
+    satisfies `c02Bounds` -/
+theorem c02Bounds_flow_bridge (env : Env) (fuel : Nat) (root : NodeId) (sid : StoreId) (st : RunSt) :
+    ∀ p ∈ segments (noWaits (runNode env fuel root sid st).1), ∀ cfg, env.arena p.1.1 = .leaf cfg →
+      c02Bounds cfg (env.leafBeh p.1.1 p.1.2) p.2 = true := by
+  intro p hp cfg hcfg
+  rcases ((Flyt.Proofs.Visits.run_visits env sid fuel).1 root st).segments_mem p hp with ⟨cfg', ha, hseg⟩ | ⟨cfg', ha⟩
+  · rw [hcfg] at ha; cases ha
+    rw [hseg, c02Bounds_noWaits]
+    exact c02Bounds_bridge env.kind p.1.1 p.1.2 sid cfg _
+  · rw [hcfg] at ha; cases ha
+
+/-- the example script, with the context cancelled asynchronously during the retry wait before attempt `w` and
+    (if `c`) by attempt 2 itself -/
+def exScrCancel (firstOk w : Nat) (c : Bool) : LeafScript :=
+  { exScr firstOk with
+    waitCancel := fun k => k == w,
+    exec := fun k => { (exScr firstOk).exec k with cancels := c && k == 2 } }
+
+-- cut short during the wait before attempt 2 (2 of 3 attempts, no fallback): `c02Bounds` holds, `c02Visit` does not
+example : execCount (runLeaf .canceled 4 0 1 exCfg (exScrCancel 7 2 false) .live).1 = 2 ∧
+    (runLeaf .canceled 4 0 1 exCfg (exScrCancel 7 2 false) .live).2.2 = .err (.ctx .canceled) ∧
+    c02Bounds exCfg (exScrCancel 7 2 false) (runLeaf .canceled 4 0 1 exCfg (exScrCancel 7 2 false) .live).1 = true ∧
+    c02Visit exCfg (exScrCancel 7 2 false) (runLeaf .canceled 4 0 1 exCfg (exScrCancel 7 2 false) .live).1 = false := by
+  decide
+-- the last attempt cancels the context and fails: all 3 attempts were made, the fallback still runs once (the
+-- fallback branch of `c02Bounds`: custom fallback, `m = N`, all failed, prep value and last error)
+example : fbCalls (runLeaf .canceled 4 0 1 exCfg (exScrCancel 7 9 true) .live).1 = [.fb 4 0 (.tok 7) (.user 102)] ∧
+    c02Bounds exCfg (exScrCancel 7 9 true) (runLeaf .canceled 4 0 1 exCfg (exScrCancel 7 9 true) .live).1 = true := by
+  decide
+-- the predicate is not trivially true: it rejects a 4th attempt, an attempt after a success, a fallback call
+-- after 2 of 3 attempts and a fallback call with another error
+example : c02Bounds exCfg (exScr 7) ((List.range 4).map fun k => Ev.exec 4 0 k (.tok 7)) = false ∧
+    c02Bounds exCfg (exScr 0) ((List.range 2).map fun k => Ev.exec 4 0 k (.tok 7)) = false ∧
+    c02Bounds exCfg (exScr 7) (((List.range 2).map fun k => Ev.exec 4 0 k (.tok 7)) ++ [.fb 4 0 (.tok 7) (.user 101)]) = false ∧
+    c02Bounds exCfg (exScr 7) (((List.range 3).map fun k => Ev.exec 4 0 k (.tok 7)) ++ [.fb 4 0 (.tok 7) (.user 101)]) = false := by
+  decide
+-- no exec callback / budget 0 (a node whose `maxRetries` is 0): no side condition is needed there either
+example : c02Bounds { exCfg with execS := .absent } (exScr 7)
+      (runLeaf .canceled 4 0 1 { exCfg with execS := .absent } (exScr 7) .live).1 = true ∧
+    ({ exCfg with budget := 0 } : LeafCfg).effBudget = 0 ∧
+    c02Bounds { exCfg with budget := 0 } (exScr 7) (runLeaf .canceled 4 0 1 { exCfg with budget := 0 } (exScr 7) .live).1 = true := by
+  decide
+
 /-! ### every item of a batch: `runExecWithRetries` (the duplicated loop) -/
 
 def exBatch : BatchCfg :=
